@@ -5,10 +5,10 @@ props = [json.loads(l) for l in open("properties.jsonl")]
 checks, na = [], []
 for p in props:
     pid = p["id"]
+    from pyvc.props import table
     try:
-        m = importlib.import_module(f"pyvc.props.{pid.lower()}")
-        e = m.MANIFEST_ENTRY
-    except (ModuleNotFoundError, AttributeError):
+        e = table.manifest_entry(pid)
+    except KeyError:
         na.append({"property_id": pid, "reason": "check not built yet in this round (planned: DESIGN.md section 5); not claimed"})
         continue
     if e.get("not_applicable"):
